@@ -122,10 +122,10 @@ OUTSIDE = [
  'the n-ary view::ufunc(op, a, b, c) fails its n_args static_assert for array operands: ternary wiring is therefore view::where, and clip_t only on scalars',
  'wiring with operand dims above 2 (binary) / 3 (unary), extents above 4, view-typed operands, dynamic (std::vector) buffers, compile-time shapes: container kinds are C09',
  'every (op x dtype pair) through broadcasting operands: wiring is op-independent code and proved once per arity; leaf checks use one-element operands',
- 'numerical accuracy of transcendental functions (uninterpreted), exact rounding of float * and / (double: bit-exact query gives no verdict in 300 s; float: thorough tier), fmod (uninterpreted)',
+ 'numerical accuracy of transcendental functions (uninterpreted), bit-exact IEEE rounding of / (float: no verdict in 600 s with kissat; double: not attempted beyond 100 s toy queries) and of double * (44 s in isolation with z3, no verdict inside a kernel query); float *, float/double + - are decided bit-exactly in the thorough tier; fmod (uninterpreted)',
  'signed integer multiplication with |operand| >= 2^7 (no verdict: > 100 s per dtype pair), signed overflow / division by zero / out-of-range shifts (undefined in C++)',
  'relu(NaN) == 0 in nmtools (PyTorch propagates NaN); maximum/minimum follow `t > u ? t : u` for NaN (np.maximum propagates NaN): the reference here is the C expression',
- 'int16/uint16 dtypes, long double, complex; array::<ufunc> (eager evaluation: C04/C10)',
+ 'deg2rad / degrees / rad2deg / radians (view::multiply with a constant), amax / amin (C08); int16/uint16 dtypes, long double, complex; array::<ufunc> (eager evaluation: C04/C10)',
 ]
 ASSUMPTIONS = ['transcendental libm functions, fmod and (in LL_UF_FLOAT queries) IEEE + - * / are uninterpreted functions shared by the kernel and the reference',
                'reference for float arithmetic = the bare C++ operator compiled by the same clang pipeline (k_ref_f* kernels contain no nmtools code)']
